@@ -60,6 +60,7 @@ fn scen(spec: RunSpec) -> ScenFut {
             if faults {
                 c.fail_before_pm = 25;
                 c.fail_after_pm = 10;
+                c.body_break_pm = 20;
                 c.delay_pm = 15;
                 c.delay_ms = vec![1, 50];
                 c.fault_budget = fb;
